@@ -213,7 +213,7 @@ def main(tier: str) -> int:
     t0 = time.time()
     hangs = 0
     for i, (kind, toks, data) in enumerate(jobs):
-        sources = ["bytesio", "raw"] if i % 3 else ["bytesio", "raw", "raw7"]
+        sources = ["bytesio", "raw", "file"] if i % 3 else ["bytesio", "raw", "raw7", "buffered"]
         if hangs >= 6:
             break                      # the point is made; every further hang costs a full watchdog period
         # the watchdog covers all 12-18 parses of one input: a fixed allowance plus time proportional to the input size ("promptly")
@@ -233,7 +233,7 @@ def main(tier: str) -> int:
             if o == "MEMORY" or o.startswith("BASE"):
                 huge = declares_frame_far_beyond_input(data)
                 run.violation({"clause": "memory" if o == "MEMORY" else "non-ordinary-exception", "entry": ep.split("/")[0],
-                               "source": "non-seekable" if ep.split("/")[1].startswith("raw") else "BytesIO",
+                               "source": "non-seekable" if ep.split("/")[1].startswith("raw") else {"bytesio": "BytesIO", "file": "file", "buffered": "BufferedReader"}[ep.split("/")[1]],
                                "declared_frame_length_far_beyond_input": huge},
                               f"{ep}: {o} on an input of {len(data)} bytes", rp)
         if res["rss_growth_kb"] > 150_000:
@@ -246,7 +246,7 @@ def main(tier: str) -> int:
         "rule": "TLC enumerates every hostile token sequence up to length MaxLen over the alphabet of spec/Hostile.tla (options with declared table sizes 0..2^32-1, entries with ids up to 2^32-1, "
                 "statements nested 3..5000 deep or with every term repeated, frames whose declared length is short, long, 2^31-1, 2^63-1 or an unterminated varint, empty frames, garbage, unknown fields) "
                 "and checks Progress/Bounded/termination of the abstract loop; each sequence, longer random walks over the same alphabet, and byte-level perturbations (bit flips, deletions, insertions, "
-                "splices, overlong varints, pure noise) of real streams are parsed by all six entry points from BytesIO and non-seekable sources in a worker with RLIMIT_AS=3GB and a watchdog of 10 s + 1 s per 4 kB of input. "
+                "splices, overlong varints, pure noise) of real streams are parsed by all six entry points from BytesIO, real files, BufferedReader and non-seekable sources in a worker with RLIMIT_AS=3GB and a watchdog of 10 s + 1 s per 4 kB of input. "
                 "distinct = distinct byte strings",
         "samples": samples, "outcome_histogram": outcomes, "inputs": len(jobs), "token_sequences_from_tlc": len(seen),
         "tlc_states": r.distinct, "wall_parse_s": round(time.time() - t0, 1),
